@@ -732,6 +732,11 @@ def main() -> None:
 def replay(case):
     if "probe" in case:
         case = PROBES[case["probe"]]
+    if "src" in case:  # place-expression program (stage 2)
+        from vlib.effects_eval import evaluate
+
+        stt, bucket, detail = evaluate(case["src"])
+        return ("place." + bucket, detail) if stt == "mismatch" else None
     vs, st = run_scripts(case["scripts"])
     if st != "ok":
         raise harness.HarnessError(st[1])
@@ -1029,13 +1034,47 @@ def worker(ctx):
                 del pending_bad[:]
                 eval_select(batch)
 
-    harness.hyp_search(ctx, one, body, max_examples=ctx.params["n"], chunk=50, time_frac=0.8)
+    harness.hyp_search(ctx, one, body, max_examples=ctx.params["n"], chunk=50, time_frac=0.65)
     if pending and not ctx.out_of_time(0.9):
         eval_program(list(pending))
         del pending[:]
     if pending_bad and not ctx.out_of_time(0.9):
         eval_select(list(pending_bad))
         del pending_bad[:]
+
+    # ---- stage 2: element places with computed indices.  GenEffects statements whose subject is an array
+    # element (xs[i] = v, xs[i] op= v, xss[i][j] op= v, an inner array xss[i] / xsss[i][j] lent to a call, an
+    # index that is itself an element `sel[0]` which the right-hand side changes), the indices being
+    # expression trees over reporting helpers: the element read, written or given back must be the one
+    # CPython touches and every index expression runs exactly once.
+    from vlib.effects_eval import evaluate
+    from vlib.gen import effects
+
+    def place_body(b):
+        stt, bucket, detail = evaluate(b["src"])
+        parts = b["parts"]
+        verdicts = [("ok", None, None)] * len(parts) if stt == "ok" else [evaluate(p_["src"]) for p_ in parts]
+        for p_, (st1, b1, d1) in zip(parts, verdicts):
+            src = p_["src"]
+            for e in p_["excluded"]:
+                ctx.exclude("place programs: C05 known class " + e)
+            if st1 == "generr":
+                ctx.harness_error(d1 + "\n" + src)
+                continue
+            if st1 == "unsupported":
+                ctx.unsupported_case("selene could not build/run the program")
+                continue
+            if st1 in ("outside", "toolong"):
+                ctx.label("place:outside:" + str(b1))
+                continue
+            ctx.case(src, st1 == "ok", labels=["place"] + ["place:" + l for l in p_["labels"] if l.startswith("stmt:")],
+                     sample={"place_program": src[src.index("def p"):] if "def p" in src else src[src.index("def main"):]})
+            if st1 == "mismatch":
+                ctx.violation("place." + b1, {"src": src}, d1 + "\n" + src[src.index("def main"):])
+
+    if ctx.params.get("n_place"):
+        harness.hyp_search(ctx, effects.program_batches(k=5, allow_known=False, kinds=effects.PLACE_KINDS), place_body,
+                           max_examples=ctx.params["n_place"], chunk=5, time_frac=0.85, extra_seed=11)
 
     n_unsup = sum(v for k, v in ctx.unsupported.items() if k.startswith("selene could not"))
     if n_unsup > 0.1 * max(1, ctx.evaluations + n_unsup):
@@ -1086,7 +1125,10 @@ SPEC = harness.Spec(
           "array[int,2], qubit), every index and written value a run-time function argument; modes: clean, or one inserted "
           "operation with a negative index, an index >= n (up to n+2), or the same element lent twice to one call. Clean "
           "scripts share a program, scripts that must panic are built alone. non-trivial = script that must panic or that "
-          "contains a starred unpacking; distinct = distinct script"),
+          "contains a starred unpacking; distinct = distinct script. Stage 2 (place programs): GenEffects statements over "
+          "element places with computed indices (xs[i] = v, xs[i] op= v, xss[i][j] op= v, inner arrays xss[i] / xsss[i][j] "
+          "lent to a call, an index `sel[0]` that the right-hand side changes), 5 programs per build, emulator result "
+          "stream compared with CPython's; non-trivial there = accepted and run"),
     assumptions=["oracle = Python list model restricted to 0 <= i < n; any other index or a double borrow must panic at that "
                  "operation: stream equal to the model's up to the operation's position marker, non-empty panic message",
                  "panic texts are not compared (borrow/return panics come from the runtime's borrow_array, the classical "
@@ -1098,7 +1140,8 @@ SPEC = harness.Spec(
                  "qubit arrays are observed in the computational basis only (X, CX, swap, reset on |0..0>)"],
     shards={"quick": 16, "thorough": 16},
     budget_s={"quick": 180, "thorough": 1500},
-    params={"quick": {"n": 96, "clean_batch": 16, "select_set": 8}, "thorough": {"n": 800, "clean_batch": 16, "select_set": 8}},
+    params={"quick": {"n": 80, "clean_batch": 16, "select_set": 8, "n_place": 5},
+            "thorough": {"n": 800, "clean_batch": 16, "select_set": 8, "n_place": 120}},
     min_nontrivial=40,
 )
 
